@@ -676,34 +676,57 @@ def run_engine(job):
         signal.alarm(0)
 
 
-def run_jobs(jobs, budget_s, procs=16):
-    """run the jobs on the real engine in worker processes; stop collecting when the wall-clock budget is used up
-    (the jobs that did not finish are simply absent from the result)"""
-    if not jobs:
-        return {}
-    import multiprocessing as mp
-    ctx = mp.get_context('fork')
-    res = {}
-    pool = ctx.Pool(min(procs, max(1, len(jobs))), maxtasksperchild=400)
+def _init_worker():
     try:
-        it = pool.imap_unordered(run_engine, jobs)
-        # the budget starts with the first answer (worker start-up = importing the engine is not counted, but is
-        # itself limited to 10 minutes)
-        deadline = time.time() + 600
+        _boot()
+    except BaseException:  # noqa: BLE001   (reported by the first job instead)
+        pass
+
+
+class EnginePool:
+    """worker processes that import the real engine once (start-up overlaps with the Lake build) and serve both
+    passes.  `run` stops handing out jobs when its wall-clock budget is used up; jobs that were not started are
+    absent from the result."""
+
+    def __init__(self, procs=16):
+        import multiprocessing as mp
+        self.procs = procs
+        self.pool = mp.get_context('fork').Pool(procs, initializer=_init_worker)
+
+    def run(self, jobs, budget_s):
+        res, pending, it = {}, [], iter(jobs)
+        deadline = time.time() + 900          # until the first answer: start-up of the workers
+        exhausted = False
         while True:
-            try:
-                jid, out = it.next(timeout=max(1.0, deadline - time.time()))
-            except StopIteration:
+            while not exhausted and len(pending) < 2 * self.procs and time.time() < deadline:
+                j = next(it, None)
+                if j is None:
+                    exhausted = True
+                    break
+                pending.append(self.pool.apply_async(run_engine, (j,)))
+            if not pending:
                 break
-            except mp.TimeoutError:
+            progressed = False
+            for a in list(pending):
+                if a.ready():
+                    pending.remove(a)
+                    progressed = True
+                    try:
+                        jid, out = a.get()
+                    except BaseException:  # noqa: BLE001
+                        continue
+                    if not res:
+                        deadline = time.time() + budget_s
+                    res[jid] = out
+            if time.time() > deadline + CALL_BUDGET + 30:
                 break
-            if not res:
-                deadline = time.time() + budget_s
-            res[jid] = out
-    finally:
-        pool.terminate()
-        pool.join()
-    return res
+            if not progressed:
+                time.sleep(0.02)
+        return res
+
+    def close(self):
+        self.pool.terminate()
+        self.pool.join()
 
 
 # =========================================================================================== comparison
@@ -1059,6 +1082,14 @@ def main(ck):
         do_replay(ck, ck.replay_path)
         return
     t0 = time.time()
+    pool = EnginePool()
+    try:
+        _main(ck, pool, t0)
+    finally:
+        pool.close()
+
+
+def _main(ck, pool, t0):
     pr = ck.proof('C29')
     ncases = int(os.environ.get('C29_N') or (320 if ck.quick() else 3000))
     dbg('proof done')
@@ -1072,7 +1103,7 @@ def main(ck):
         c['expected'], c['trace'] = R.evaluate(c['script'], c['inputs'])
         jobs.append((c['idx'], c['text'], structures_of(c['inputs']), data_of(c['inputs'])))
     dbg('reference evaluated')
-    results = run_jobs(jobs, 100 if ck.quick() else 900)
+    results = pool.run(jobs, 100 if ck.quick() else 900)
     dbg('engine pass 1 done (%d of %d)' % (len(results), len(jobs)))
     # ---- pass 2: the twin (same script, conventional fold-distinct names) of every disagreeing case
     jobs2 = []
@@ -1086,7 +1117,7 @@ def main(ck):
             t['text'] = R.render(t['script'])
             t['expected'], t['trace'] = R.evaluate(t['script'], t['inputs'])
             jobs2.append((c['idx'], t['text'], structures_of(t['inputs']), data_of(t['inputs'])))
-    results2 = run_jobs(jobs2, 70 if ck.quick() else 600)
+    results2 = pool.run(jobs2, 60 if ck.quick() else 600)
     dbg('engine pass 2 done (%d twins)' % len(jobs2))
     t_engine = time.time() - t0
 
